@@ -718,18 +718,43 @@ Proof.
 Qed.
 
 (** ---------- save ---------- *)
+Lemma ser_angles_spec : forall i, ser_angles_ok i = true <-> opt_ok (Forall guide_angle_spec) (i_guides i).
+Proof.
+  intros i. unfold ser_angles_ok, opt_ok. destruct (i_guides i) as [gs|].
+  - rewrite forallb_forall. split.
+    + intros H a [= <-]. apply Forall_forall. intros g Hg. apply line_ok_spec. apply H. exact Hg.
+    + intros H g Hg. apply line_ok_spec. specialize (H gs eq_refl). rewrite Forall_forall in H. apply H. exact Hg.
+  - split; [intros _ a H; discriminate|reflexivity].
+Qed.
+(** after validate() the serialiser's angle test cannot fail: save never fails late (F9 is gone) *)
+Theorem save_never_late : forall i, fi_save i <> Err SSerialize.
+Proof.
+  intros i. unfold fi_save. destruct (fi_validate i) as [[]|e|s] eqn:E; try discriminate.
+  apply validate_iff_spec in E. destruct E as (_ & _ & _ & HA & _). apply ser_angles_spec in HA.
+  rewrite HA. discriminate.
+Qed.
 Theorem save_iff_spec : forall i, (exists j, fi_save i = Ok j) <-> fi_spec i.
 Proof.
-  intros i. rewrite <- validate_iff_spec. unfold fi_save.
-  destruct (fi_validate i) as [[]|e|s].
-  - split; [intros _; reflexivity|intros _; exists i; reflexivity].
-  - split; [intros [j H]; discriminate|discriminate].
-  - split; [intros [j H]; discriminate|discriminate].
+  intros i. split.
+  - intros [j H]. unfold fi_save in H. destruct (fi_validate i) as [[]|e|s] eqn:E; try discriminate.
+    apply validate_iff_spec. exact E.
+  - intros H. exists i. unfold fi_save. rewrite (proj2 (validate_iff_spec i) H).
+    destruct H as (_ & _ & _ & HA & _). apply ser_angles_spec in HA. rewrite HA. reflexivity.
 Qed.
 Theorem save_only_valid : forall i j, fi_save i = Ok j -> j = i /\ fi_spec j.
 Proof.
   intros i j H. unfold fi_save in H. destruct (fi_validate i) as [[]|e|s] eqn:E; try discriminate.
+  destruct (ser_angles_ok i); [|discriminate].
   injection H as <-. split; [reflexivity|apply validate_iff_spec; exact E].
+Qed.
+Theorem save_error_is_validate_error : forall i e,
+  fi_save i = Err e <-> exists k, e = SInvalid k /\ fi_validate i = Err k.
+Proof.
+  intros i e. pose proof (save_never_late i) as HL. unfold fi_save in *.
+  destruct (fi_validate i) as [[]|k|s] eqn:E.
+  - destruct (ser_angles_ok i); [|congruence]. split; [discriminate|intros [k [_ H]]; discriminate].
+  - split; [intros [= <-]; exists k; split; reflexivity|intros [k' [-> [= ->]]]; reflexivity].
+  - split; [discriminate|intros [k' [_ H]]; discriminate].
 Qed.
 
 (** ---------- load ---------- *)
